@@ -91,8 +91,10 @@ def gen():
     shutil.rmtree(tmp, ignore_errors=True)
 
 
-def do_filter(workers):
+def do_filter(workers, only=""):
     muts = load(F("mutants.jsonl"))
+    if only:
+        muts = [m for m in muts if any(o in m["file"] for o in only.split(","))]
     done = {r["id"]: r for r in load(F("filter.jsonl"))}
     todo = [m for m in muts if m["id"] not in done]
     print(len(muts), "mutants,", len(todo), "to filter")
@@ -139,7 +141,7 @@ def verif_copy(dst, repo):
 def do_score(workers, only, redo_missed, seed):
     surv = load(F("survivors.jsonl"))
     if only:
-        surv = [m for m in surv if only in m["file"]]
+        surv = [m for m in surv if any(o in m["file"] for o in only.split(","))]
     sp = F("scores.jsonl")
     prev = {}
     for r in load(sp):
@@ -149,7 +151,7 @@ def do_score(workers, only, redo_missed, seed):
     outf = open(sp, "a")
 
     def work(w):
-        tag = SET + ("-" + only.replace("/", "_") if only else "")
+        tag = SET + ("-" + only.replace("/", "_").replace(",", "+")[:40] if only else "")
         repo, ver = "/tmp/mut-repo%s-%d" % (tag, w), "/tmp/mut-verif%s-%d" % (tag, w)
         repo_copy(repo)
         verif_copy(ver, repo)
@@ -216,7 +218,7 @@ if __name__ == "__main__":
     if cmd == "gen":
         gen()
     elif cmd == "filter":
-        do_filter(int(opt("--workers", "8")))
+        do_filter(int(opt("--workers", "8")), opt("--only", ""))
     elif cmd == "score":
         do_score(int(opt("--workers", "3")), opt("--only", ""), "--redo-missed" in sys.argv, int(opt("--seed", "1")))
     elif cmd == "report":
